@@ -135,6 +135,23 @@ def rat(x, point):
     return None
 
 
+def crat(x, point):
+    """exact value of an expression as a Gaussian rational 'C:a/b:c/d' (or a plain 'a/b' when real), else None"""
+    r = rat(x, point)
+    if r is not None:
+        return r
+    try:
+        x = sp.sympify(getattr(x, 'sympy', x))
+        sub = {sy: point[sy.name] for sy in x.free_symbols if sy.name in point}
+        re_, im_ = sp.simplify(x.subs(sub)).as_real_imag()
+        re_, im_ = sp.nsimplify(re_), sp.nsimplify(im_)
+        if re_.is_Rational and im_.is_Rational:
+            return 'C:%d/%d:%d/%d' % (re_.p, re_.q, im_.p, im_.q)
+    except Exception:
+        return None
+    return None
+
+
 def mk(lines):
     c = Circuit()
     for l in lines:
@@ -156,7 +173,7 @@ def parse_net(text, point):
                 vals.append(None)
                 continue
             try:
-                vals.append(rat(expr(a), point))
+                vals.append(crat(expr(a), point))
             except Exception:
                 vals.append(None)
         d['vals'] = vals
@@ -242,7 +259,11 @@ def run(case):
         return {'solve': solve(c, point)}
     c = mk(case['netlist'])
     res = {'hashseed': os.environ.get('PYTHONHASHSEED')}
-    res['orig'] = parse_net(str(c), point)
+    point_o = dict(point)
+    if case.get('orig_s_imag'):
+        # ac_model: the s-dependent values of the ORIGINAL passive components are read at s = j omega
+        point_o['s'] = sp.I * sp.Rational(case['orig_s_imag'])
+    res['orig'] = parse_net(str(c), point_o)
     res['ground'] = '0' in c.nodes
     try:
         new = apply_op(c, case['op'], case.get('args', {}))
